@@ -236,3 +236,18 @@ Theorem C06_set_buf_is_the_translated_C :
     Some (None, set_c w (packet_set_buf (w_c w) bytes)).
 Proof. exact skel_set_buf. Qed.
 Print Assumptions C06_set_buf_is_the_translated_C.
+
+(* ------------------------------------------------------------------ tie by translation: opening / closing functions *)
+(* <prefix><dst>_open_packet / _close_packet as REGENERATED from the template text of barectf.c.j2 on every
+   run (tools/c2coq.py -> Gen/CSkelFuns.v fn_open, fn_close; the serialization of the header / context
+   operation trees and the three write-back blocks are single abstract statements, tied by the operation
+   tree capture and the differential runs), run by the semantics of Tracer/CSkelOC.v, are Model.open_fn /
+   Model.close_fn for every data stream type and world: the no-op exits on an open (resp. closed) packet, the packet_is_open flag, the position rewound to 0 at opening and parked at packet_size at closing, off_content. *)
+From BT.Tracer Require Import CSkel CSkelOC CSkelOCProofs.
+From BT.Gen Require Import CSkelFuns.
+Theorem C06_open_fn_is_the_translated_C : forall d w, run_oc d fn_open w = Some (open_fn d w).
+Proof. exact skel_open. Qed.
+Print Assumptions C06_open_fn_is_the_translated_C.
+Theorem C06_close_fn_is_the_translated_C : forall d w, run_oc d fn_close w = Some (close_fn d w).
+Proof. exact skel_close. Qed.
+Print Assumptions C06_close_fn_is_the_translated_C.
